@@ -117,6 +117,10 @@ def tok_step(cx, k, active):
             # a multi-byte message is exactly the pre-state buffer plus b
             cx.check(active and cx.eq(e, pre_items + [b]), 'emitted-from-buffer')
     cx.check(_inv(cx, tok), 'invariant-kept')
+    # a non-real-time message that comes out ends whatever was being collected: otherwise the old
+    # buffer could complete LATER and its bytes would come out after bytes that followed them in the input
+    if any(m.type not in REALTIME for m in out):
+        cx.check(decide(cx, tok._status == 0), 'buffer-step')
     # buffer step relation (subsequence property by induction)
     if not decide(cx, tok._status == 0):
         post = list(tok._bytes)
@@ -133,6 +137,25 @@ def tok_step(cx, k, active):
 
 # first-byte ranges that split a stream harness over the worker pool (a covering partition of 0..255)
 PARTS = [(0, 127)] + [(128 + 8 * i, 128 + 8 * i + 7) for i in range(14)] + [(b, b) for b in range(0xF0, 0x100)]
+
+@harness(labels=['long-stream-nothing-dropped'])
+def scale(cx):
+    """Concrete scale probe: a long stream keeps every message (no bounded queue)."""
+    import mido
+    n = [1025, 65537, 70001][cx.choice('count', 3)]
+    stream = []
+    last = None
+    for i in range(n):
+        last = [0xF8] if i % 7 == 0 else [0x90 | (i % 16), i % 128, (i // 128) % 128]
+        stream += last
+    p = mido.Parser()
+    p.feed(stream)
+    cx.check(p.pending() == n, 'long-stream-nothing-dropped')
+    first = p.get_message()
+    cx.check(first is not None and first.type == 'clock', 'long-stream-nothing-dropped')
+    rest = list(p)
+    cx.check(len(rest) == n - 1 and rest[-1].bytes() == last, 'long-stream-nothing-dropped')
+
 
 NONBYTES = [256, -1, 1.5, 'a', None, 1000, b'\x01']
 
@@ -158,7 +181,7 @@ BOUNDS = {
     'quick': 'bounded direct: every byte string of length 0..3 over the full 0..255 alphabet through parse_all; '
              'inductive step: every tokenizer state satisfying the representation invariant with buffer length '
              '1..6 (active, any status that opens a multi-byte message, symbolic data bytes) or idle with 0..3 '
-             'arbitrary stale bytes, one arbitrary byte 0..255; non-byte items: 7-value menu',
+             'arbitrary stale bytes, one arbitrary byte 0..255; non-byte items: 7-value menu; concrete scale probe (streams of 1025..70001 messages)',
     'thorough': 'bounded direct up to length 4 (split into 31 first-byte ranges); inductive buffer length up to 12',
 }
 OUTSIDE = 'streams longer than the direct bound are covered only through the inductive step, which reads the ' \
@@ -186,4 +209,5 @@ def JOBS(tier):
         jobs.append((tok_step, {'k': k, 'active': False}, {}))
     for k in range(0, 3):
         jobs.append((feed_nonbyte, {'k': k}, {}))
+    jobs.append((scale, {}, {'cost': 100}))
     return jobs
